@@ -23,6 +23,7 @@ history stops quietly (class `diverged-elsewhere`): the owner property reports i
 from __future__ import annotations
 
 import asyncio
+import os
 import re
 from collections import Counter
 from typing import Any
@@ -132,12 +133,36 @@ async def _run_history(
     metric = case.get("metric", True)
     registry = case.get("registry") or {}
     model = RefController(version, metric=metric, registry=registry)
-    gateway, transport = env.make_gateway(version, metric=metric, ctx=case.get("ctx"), persistence_file=case.get("persistence_file"))
+    persistence_file = case.get("persistence_file")
+    scratch_dir = None
+    if persistence_file == "scratch":
+        # a registry file that works (in a directory of its own, removed afterwards)
+        import os
+        import tempfile
+
+        scratch_dir = tempfile.mkdtemp(prefix="vfhist-", dir="/dev/shm" if os.path.isdir("/dev/shm") else None)
+        persistence_file = os.path.join(scratch_dir, "registry.json")
+    gateway, transport = env.make_gateway(version, metric=metric, ctx=case.get("ctx"), persistence_file=persistence_file, via=case.get("via"))
     env.install_registry(gateway.nodes, registry)
     if "setup" in hooks:
         hooks["setup"](gateway, transport, model)
     info: dict[str, Any] = {"classes": Counter(), "steps": 0, "diverged": False, "model": model, "gateway": gateway}
+    if scratch_dir is not None:
+        info["tmpdir"] = scratch_dir
     classes: Counter = info["classes"]
+    if case.get("via") not in (None, "plain"):
+        classes[f"via={case['via']}"] += 1
+    bystander = None
+    if case.get("bystander"):
+        # another gateway object lives in the same process (a second MySensors network): it runs the rules of another protocol
+        # version and handles a message of its own before every step of this history
+        other_version = "1.5" if (version or "1.4").startswith("2") else "2.2"
+        bystander, _bt = env.make_gateway(other_version, metric=not metric)
+        env.install_registry(bystander.nodes, {"1": {"protocol_version": "2.0", "sleeping": True, "children": {"1": {"child_type": 3, "values": {"2": "0"}}}},
+                                               "4": {"protocol_version": "2.0", "children": {"1": {"child_type": 6, "values": {"0": "1"}}}}})
+        bystander_lines = [f"0;255;3;0;2;{other_version}.0\n", "0;255;3;0;14;\n", "1;1;1;0;2;1\n", "4;1;2;0;0;\n", "1;255;3;0;22;5\n", "77;1;1;0;0;1\n", "4;255;3;0;6;\n",
+                           "255;255;3;0;3;\n", "4;255;0;0;17;2.1.0\n", "4;255;3;0;1;\n"]
+        classes["bystander-gateway"] += 1
     # "persistent": one long-lived listen() generator (renewed only after an error); "fresh": a new one per line
     listener = env.Listener(gateway) if case.get("listen_mode") == "persistent" else None
     classes[f"listen={'persistent' if listener else 'fresh'}"] += 1
@@ -149,6 +174,10 @@ async def _run_history(
         transport.step = idx
         info["steps"] = idx + 1
         kind = op[0]
+        if bystander is not None:
+            if idx % 3 == 2:
+                await env.send(bystander, env.mk_message([1, 1, 1, 0, 2, str(idx % 2)]), True)
+            await env.rx(bystander, bystander_lines[idx % len(bystander_lines)])
         if kind == "session":
             if listener is not None:
                 await listener.close()
@@ -156,9 +185,13 @@ async def _run_history(
                 if info.get("in_session"):
                     info["in_session"] = False
                     await gateway.__aexit__(None, None, None)
+                file_there = scratch_dir is not None and os.path.isfile(persistence_file)
                 await gateway.__aenter__()
                 info["in_session"] = True
                 classes["session-restart"] += 1
+                if file_there:
+                    model.reboot.clear()  # the registry was read back from its file: every node is a new object, application flags on the old ones are gone
+                    classes["session-reloaded-registry"] += 1
             except TransportError:
                 raise
             except Exception as err:  # noqa: BLE001
@@ -241,7 +274,16 @@ async def _run_history(
 
             node_id = int(op[1])
             if node_id not in gateway.nodes:
-                gateway.nodes[node_id] = _Node(node_id, 17, "2.0")
+                how = op[2] if len(op) > 2 else "setitem"
+                if how == "update":
+                    gateway.nodes.update({node_id: _Node(node_id, 17, "2.0")})
+                elif how == "setdefault":
+                    gateway.nodes.setdefault(node_id, _Node(node_id, 17, "2.0"))
+                elif how == "ior":
+                    gateway.nodes |= {node_id: _Node(node_id, 17, "2.0")}
+                else:
+                    gateway.nodes[node_id] = _Node(node_id, 17, "2.0")
+                classes[f"install:{how}"] += 1
                 from vf.model import new_node as _new_node
 
                 model.nodes[str(node_id)] = _new_node(node_id, 17, "2.0")
@@ -393,6 +435,10 @@ async def _run_history(
         if rec.outcome == "leak":
             if "leak" in aspects:
                 return bad(f"leak:{env.exc_sig(rec.value)}", f"{rec.value!r}", idx), info
+            if "presreq" in aspects and pred.presreq_node is not None and not any(PRESREQ.match(w) for w in rec.writes) and not rec.attempts:
+                return bad(f"presreq-missing:{_msgkind(pred.fields)}", f"a presentation request to node {pred.presreq_node} is owed and none was written (the step ended in {rec.value!r})", idx), info
+            if "writes" in aspects and tuple(pred.outcomes) == ("ok",) and (Counter(pred.reactions) - Counter(rec.writes)) and not rec.attempts:
+                return bad(f"reaction-refused:{_msgkind(pred.fields)}:leak", f"owed {pred.reactions!r}, wrote {rec.writes!r} (the step ended in {rec.value!r})", idx), info
             if query_owed_but_missing():
                 return bad(f"version-query:missing:{mk}", f"no version query although the version is unknown (the step ended in {rec.value!r})", idx), info
             info["diverged"] = True
@@ -684,3 +730,70 @@ async def run_plain(case: dict, *, batch: bool) -> dict:
         "snapshot": env.snapshot(gateway.nodes),
         "version": gateway.protocol_version,
     }
+
+
+# ---------------------------------------------------------------------------
+# one event of every kind x one environment dimension at a time
+
+TOUR_REGISTRY = {
+    "4": {"node_id": 4, "node_type": 17, "protocol_version": "2.0", "sketch_name": "s", "sketch_version": "1", "battery_level": 10, "heartbeat": 0, "sleeping": False,
+          "children": {"1": {"child_id": 1, "child_type": 6, "description": "temp", "values": {"0": "20"}}, "2": {"child_id": 2, "child_type": 3, "description": "", "values": {"2": "1"}}}},
+    "5": {"node_id": 5, "node_type": 17, "protocol_version": "2.0", "sketch_name": "", "sketch_version": "", "battery_level": 0, "heartbeat": 0, "sleeping": True,
+          "children": {"1": {"child_id": 1, "child_type": 3, "description": "", "values": {}}}},
+    # children of sensor types that only some protocol versions list (S_INFO = 36 since 2.0), or none does
+    "3": {"node_id": 3, "node_type": 18, "protocol_version": "2.3.2", "sketch_name": "", "sketch_version": "", "battery_level": 0, "heartbeat": 0, "sleeping": False,
+          "children": {"1": {"child_id": 1, "child_type": 36, "description": "", "values": {"47": "text"}}, "2": {"child_id": 2, "child_type": 99, "description": "", "values": {}},
+                       "3": {"child_id": 3, "child_type": 0, "description": "", "values": {}}}},
+}
+TOUR_EVENTS = (
+    [["rx", "4;1;1;0;0;21.5\n"]], [["rx", "4;1;2;0;0;\n"]], [["rx", "4;255;0;0;17;2.1.0\n"]], [["rx", "4;3;0;0;6;new child\n"]], [["rx", "4;255;3;0;0;77\n"]],
+    [["rx", "4;255;3;0;11;sketch\n"]], [["rx", "4;255;3;0;12;1.1\n"]], [["rx", "4;255;3;0;6;0\n"]], [["rx", "4;255;3;0;1;\n"]], [["rx", "255;255;3;0;3;\n"]],
+    [["rx", "0;255;3;0;2;2.2.0\n"]], [["rx", "0;255;3;0;2;1.5.1\n"]], [["rx", "0;255;0;0;18;2.1.1\n"]], [["rx", "0;255;3;0;14;\n"]], [["rx", "0;255;3;0;9;log line\n"]],
+    [["rx", "9;1;1;0;0;1\n"], ["rx", "9;1;1;0;0;2\n"]], [["rx", "4;9;1;0;0;1\n"], ["rx", "4;9;1;0;0;2\n"]], [["rx", "4;255;3;0;22;7\n"]], [["rx", "4;255;3;0;32;500\n"]],
+    [["rx", "4;255;3;0;33;500\n"]], [["rx", "4;255;3;0;21;\n"]], [["rx", "4;255;3;0;18;\n"]], [["rx", "4;255;4;0;0;00\n"]], [["rx", "garbage\n"]], [["rx", "\n"]],
+    [["rx", "4;1;1;0;0;\n"]], [["rx", "300;1;1;0;0;1\n"]], [["rx", "255;255;3;0;9;from a node without an id\n"]],
+    [["send", [5, 1, 1, 0, 2, "1"], True], ["rx", "5;255;3;0;22;1\n"], ["rx", "5;255;3;0;22;2\n"]],
+    [["send", [5, 1, 1, 0, 2, "1"], True], ["send", [5, 1, 1, 0, 2, "0"], True], ["rx", "5;1;1;0;2;1\n"], ["rx", "5;255;3;0;32;100\n"]],
+    [["send", [4, 1, 1, 0, 0, "9"], True]], [["send", [4, 255, 3, 0, 18, ""], True], ["rx", "4;255;3;0;22;3\n"]],
+    [["flag", 4, "reboot", True], ["rx", "4;1;1;0;0;3\n"], ["rx", "4;1;1;0;0;4\n"]],
+    [["rx", "4;1;1;0;0;21.5\n"], ["session"], ["rx", "4;9;1;0;0;1\n"], ["session"], ["rx", "4;9;1;0;0;2\n"], ["rx", "4;1;1;0;0;22\n"], ["rx", "4;255;3;0;22;7\n"]],
+    [["send", [5, 1, 1, 0, 2, "1"], True], ["session"], ["session"], ["rx", "5;255;3;0;22;1\n"]],
+    [["install", 12, "update"], ["install", 13, "setdefault"], ["install", 14, "ior"], ["rx", "255;255;3;0;3;\n"], ["rx", "12;255;3;0;0;5\n"]],
+    [["install", 6, "update"], ["rx", "255;255;3;0;3;\n"]], [["install", 6, "setdefault"], ["rx", "255;255;3;0;3;\n"]], [["install", 6, "ior"], ["rx", "255;255;3;0;3;\n"]],
+    [["send", [3, 1, 1, 0, 47, "hello"], True]], [["send", [3, 2, 1, 0, 2, "1"], True]], [["send", [3, 3, 1, 0, 2, "1"], False]], [["rx", "3;1;1;0;47;txt\n"], ["rx", "3;1;2;0;47;\n"]],
+    [["rx", "3;2;1;0;2;1\n"], ["rx", "3;2;2;0;2;\n"]],
+    # stored text with characters that some string methods take for line boundaries or white space, echoed back on request
+    [["rx", "4;1;1;0;0;a\x0bb\n"], ["rx", "4;1;2;0;0;\n"]], [["rx", "4;1;1;0;0;a\x0cb\x1cc\x1dd\x1ee\n"], ["rx", "4;1;2;0;0;\n"]], [["rx", "4;1;1;0;0;a\x85b\n"], ["rx", "4;1;2;0;0;\n"]],
+    [["rx", "4;1;1;0;0;a\u2028b\u2029c\n"], ["rx", "4;1;2;0;0;\n"]], [["rx", "4;1;1;0;0;a\rb\n"], ["rx", "4;1;2;0;0;\n"]], [["rx", "4;1;1;0;0;a b\tc;d;;e\n"], ["rx", "4;1;2;0;0;\n"]],
+    [["rx", "4;1;1;0;0;\u00e5\u00e4\u00f6 \u65e5\u672c \U0001f600\n"], ["rx", "4;1;2;0;0;\n"]],
+    [["send", [5, 1, 1, 0, 2, "1"], True], ["flag", 5, "reboot", True], ["rx", "5;255;3;0;22;1\n"], ["rx", "5;255;3;0;22;2\n"]],
+    [["flag", 5, "reboot", True], ["send", [5, 1, 1, 0, 2, "1"], True], ["rx", "5;1;1;0;2;0\n"], ["rx", "5;255;3;0;32;1\n"]],
+)
+ENV_DIMS = (
+    {}, {"debug_log": True}, {"warnings": "error"}, {"via": "mqtt"}, {"via": "stream"}, {"bystander": True}, {"persistence_file": "scratch"}, {"persistence_file": "unwritable"},
+    {"ctx": "thread"}, {"tasks": True}, {"listen_mode": "persistent"}, {"via": "mqtt", "listen_mode": "persistent", "debug_log": True},
+)
+
+
+def env_sweep(versions=(None, "1.5", "2.1", "2.2"), dims=ENV_DIMS):
+    """Short histories (a fixed registry, then one event of every kind) under every environment dimension, one at a time."""
+    for version in versions:
+        for events in TOUR_EVENTS:
+            for dim in dims:
+                yield {"version": version, "metric": True, "registry": TOUR_REGISTRY, "ops": [list(op) for op in events], **dim}
+
+
+def env_sweep_cases(versions=(None, "1.5", "2.1", "2.2"), dims=ENV_DIMS):
+    for hist in env_sweep(versions, dims):
+        yield {"kind": "envsweep", **hist}
+
+
+def run_env_case(case: dict, aspects: frozenset[str], hooks: dict | None = None) -> Outcome:
+    """Run one case of the environment sweep for a property that owns `aspects`."""
+    bad, info = env.run(run_history(case, aspects, hooks=hooks))
+    dims = tuple(f"{k}={case[k]}" for k in ("via", "debug_log", "warnings", "bystander", "persistence_file", "ctx", "tasks", "listen_mode") if case.get(k))
+    classes = ("envsweep",) + (dims or ("env=plain",)) + tuple(sorted(info["classes"]))
+    if bad is not None:
+        bad.classes = classes
+        return bad
+    return Outcome(ok=True, nontrivial=bool(dims) and not info.get("diverged"), classes=classes)
